@@ -6,7 +6,7 @@
 # Exit status = the check's exit status (1 = the seeded change was detected).
 set -u
 SEED=$(readlink -f "$1"); PROP=$2; TIER=${3:-quick}; shift 3 2>/dev/null || shift $#
-BASE=/tmp/seedeval
+BASE=${SEEDEVAL_BASE:-/tmp/seedeval}
 W=$BASE/repo; H=$BASE/mc; ROOT=$BASE/root
 mkdir -p $BASE
 exec 9>$BASE/.lock; flock 9
